@@ -182,7 +182,6 @@ def series_pairs(res, oid, pairs, G, tol, minprec=6, group_input=False, order=18
                                              pathcond=lambda env: engine.path_holds(pv, env))
         for entry, l, r in pairs:
             if wit is not None:
-                from .common import write_replay, native_replay, fmt_env
                 try:
                     val = dag.eval_ieee([l, r], wit["env"])
                     differs = abs(val[l.id] - val[r.id]) > 1e-9 * (1 + abs(val[l.id]) + abs(val[r.id]))
